@@ -2,6 +2,7 @@ package world
 
 import (
 	"context"
+	"crypto/sha256"
 	"os"
 	"time"
 
@@ -46,6 +47,34 @@ type NodeOpts struct {
 	RootDir       string
 	DAStartHeight uint64
 	MempoolTTL    uint64
+	// CustomPayload: the chain signs something other than the raw header bytes (a supported
+	// configuration: ManagerOptions.SignaturePayloadProvider).
+	CustomPayload bool
+}
+
+// CustomPayloadProvider is the non-default signature payload used when NodeOpts.CustomPayload is set.
+func CustomPayloadProvider(h *types.Header) ([]byte, error) {
+	b, err := h.MarshalBinary()
+	if err != nil {
+		return nil, err
+	}
+	s := sha256.Sum256(append([]byte("verif-custom-payload:"), b...))
+	return s[:], nil
+}
+
+// Payload returns the signature payload provider the options select.
+func (o NodeOpts) Payload() types.SignaturePayloadProvider {
+	if o.CustomPayload {
+		return CustomPayloadProvider
+	}
+	return types.DefaultSignaturePayloadProvider
+}
+
+// ManagerOptions returns the manager options the node options select.
+func (o NodeOpts) ManagerOptions() block.ManagerOptions {
+	mo := block.DefaultManagerOptions()
+	mo.SignaturePayloadProvider = o.Payload()
+	return mo
 }
 
 // Node bundles a real block.Manager with the doubles around it.
@@ -61,6 +90,7 @@ type Node struct {
 	HStore  *P2PStore[*types.SignedHeader]
 	DStore  *P2PStore[*types.Data]
 	PubKey  crypto.PubKey
+	Opts    NodeOpts
 }
 
 // MainKV wraps a raw datastore the way node/full.go does (prefix "0").
@@ -93,7 +123,7 @@ func MakeConfig(o NodeOpts) config.Config {
 // sgn is nil for a non-aggregator.
 func NewNode(ctx context.Context, o NodeOpts, raw ds.Batching, sgn signer.Signer, proposerPub crypto.PubKey,
 	exec coreexecutor.Executor, seq coresequencer.Sequencer, da coreda.DA) (*Node, error) {
-	n := &Node{Raw: raw, KV: MainKV(raw), PubKey: proposerPub}
+	n := &Node{Raw: raw, KV: MainKV(raw), PubKey: proposerPub, Opts: o}
 	n.Genesis = MakeGenesis(o, proposerPub)
 	n.Cfg = MakeConfig(o)
 	n.Store = storepkg.New(n.KV)
@@ -102,7 +132,7 @@ func NewNode(ctx context.Context, o NodeOpts, raw ds.Batching, sgn signer.Signer
 	n.HStore = NewP2PStore[*types.SignedHeader]()
 	n.DStore = NewP2PStore[*types.Data]()
 	m, err := block.NewManager(ctx, sgn, n.Cfg, n.Genesis, n.Store, exec, seq, da, Logger(),
-		n.HStore, n.DStore, n.HB, n.DB, block.NopMetrics(), 1.0, 1.5, block.DefaultManagerOptions())
+		n.HStore, n.DStore, n.HB, n.DB, block.NopMetrics(), 1.0, 1.5, o.ManagerOptions())
 	if err != nil {
 		return nil, err
 	}
@@ -115,10 +145,10 @@ func NewNode(ctx context.Context, o NodeOpts, raw ds.Batching, sgn signer.Signer
 func (n *Node) Restart(ctx context.Context, raw ds.Batching, sgn signer.Signer,
 	exec coreexecutor.Executor, seq coresequencer.Sequencer, da coreda.DA) (*Node, error) {
 	nn := &Node{Raw: raw, KV: MainKV(raw), PubKey: n.PubKey, Genesis: n.Genesis, Cfg: n.Cfg,
-		HB: n.HB, DB: n.DB, HStore: n.HStore, DStore: n.DStore}
+		HB: n.HB, DB: n.DB, HStore: n.HStore, DStore: n.DStore, Opts: n.Opts}
 	nn.Store = storepkg.New(nn.KV)
 	m, err := block.NewManager(ctx, sgn, nn.Cfg, nn.Genesis, nn.Store, exec, seq, da, Logger(),
-		nn.HStore, nn.DStore, nn.HB, nn.DB, block.NopMetrics(), 1.0, 1.5, block.DefaultManagerOptions())
+		nn.HStore, nn.DStore, nn.HB, nn.DB, block.NopMetrics(), 1.0, 1.5, n.Opts.ManagerOptions())
 	if err != nil {
 		return nil, err
 	}
@@ -130,10 +160,17 @@ func (n *Node) Restart(ctx context.Context, raw ds.Batching, sgn signer.Signer,
 func (n *Node) Spec(genesisRoot []byte, txsOf func(uint64) ([][]byte, bool), atRest bool) ChainSpec {
 	return ChainSpec{
 		Store: n.Store, Genesis: n.Genesis, PubKey: n.PubKey, GenesisRoot: genesisRoot,
-		TxsOf: txsOf, Validate: n.M.VerifExecValidate, AtRest: atRest,
+		TxsOf: txsOf, Validate: n.validate, AtRest: atRest, Payload: n.Opts.Payload(),
 		EmptyDataHash: block.VerifDataHashForEmptyTxs(),
 	}
 }
 
 // StoreOn returns a pkg/store view of a raw datastore (prefixed like the node does).
 func StoreOn(raw ds.Batching) storepkg.Store { return storepkg.New(MainKV(raw)) }
+
+// validate is the full-node validation with the chain's signature payload provider installed on
+// the header (as the node does before validating).
+func (n *Node) validate(last types.State, h *types.SignedHeader, d *types.Data) error {
+	h.SetCustomVerifier(n.Opts.Payload())
+	return n.M.VerifExecValidate(last, h, d)
+}
